@@ -7,7 +7,7 @@ export GOFLAGS=-mod=mod GOPROXY=off
 WT=/tmp/wt/trial_$N; VT=/tmp/vt_$N
 rm -rf $WT $VT; git -C /repo worktree prune
 git -C /repo worktree add -q --detach $WT HEAD || exit 2
-OUT=$D/trial.json
+OUT=${TRIAL_OUT:-$D/trial.json}
 cd $WT
 if ! git apply $D/patch.diff 2>/dev/null; then echo "{\"name\":\"$N\",\"applies\":false}" > $OUT; cat $OUT; git -C /repo worktree remove --force $WT; exit 3; fi
 go build ./... >/dev/null 2>&1 || { echo "{\"name\":\"$N\",\"applies\":true,\"builds\":false}" > $OUT; cat $OUT; git -C /repo worktree remove --force $WT; exit 4; }
@@ -19,7 +19,7 @@ fi
 cp -r $D $WT/$(basename $D) 2>/dev/null
 bash $D/demo.sh >/tmp/trial_demo_$N.log 2>&1 && DW=false || DW=true
 # checks against the patched worktree, from a scratch copy of /verif
-rsync -a --exclude .git --exclude out --exclude .scratch /verif/ $VT/
+rsync -a --exclude .git --exclude out --exclude .scratch --exclude seeded ${VERIF_SRC:-/verif}/ $VT/
 mkdir -p $VT/out $VT/.scratch
 RES=""
 for p in "$@"; do
